@@ -1,0 +1,11 @@
+//go:build verif
+
+package relay
+
+// Hooks for the verification harness (/verif). Compiled only with `-tags verif`.
+
+// VerifPending reports how many lines wait in the relay's internal channel.
+func (r *Relay) VerifPending() int { return len(r.bufferChannel) }
+
+// VerifCloseConn closes the relay's UDP socket so that every later send fails.
+func (r *Relay) VerifCloseConn() { r.conn.Close() }
